@@ -11,6 +11,18 @@ TB = ("Coq 8.16.1 kernel (+vm_compute); no axioms of our own (Print Assumptions 
       "tied by regeneration/correspondence on the cases run")
 
 CHECKS = {
+    "C04": dict(
+        engine="E1 gc",
+        technique="Coq proofs on the collector model: reachable cells preserved with identical objects, every path from the roots reads the same values, and schedule transparency of a path-addressed mutator language (any two collection schedules and heap sizes give equal observations); forced-schedule differential + heap audit on the real VM (hook H2) under ASan",
+        text="proof: collect_preserves_reachable, deep_read_invariant and gc_schedule_transparent (simulation through a partial bijection of addresses, for every mutator automaton, every two schedules and heap sizes that do not run out of memory) about coq/GC/GCModel.v, which is tied to back/gc.c by E1's op-history correspondence; that the VM's roots are complete is checked on the real VM: every corpus/generated program under collect-at-every-safe-point / default / never / seeded schedules and several heap sizes must give identical outcomes, and an audit after every collection walks the real heap from the real roots",
+        ref="DESIGN.md §5 C04",
+        note=TB + "; the VM as a mutator (which slots are roots at each safe point) is observed through hook H2 + audit, not modelled instruction by instruction"),
+    "C17": dict(
+        engine="E7 ffi",
+        technique="Coq proofs about a model of the record layout/marshalling code of back/vmffi.c (System V struct layout, marshal/unmarshal round-trip, descriptor stream, nil => ffi_fail decision); layout compared exhaustively with gcc's offsetof/sizeof; generated C callees + extern programs under ASan",
+        text="proof (partial by nature): layout_is_c_layout, marshal_unmarshal_roundtrip, descriptor_stream_wellformed, nil_arg_is_ffi_fail about coq/FFI/Layout.v; the platform ABI/libffi/dlopen part cannot be modelled and is observed: generated signatures (arity up to 8/10, by-value structs 1-40 bytes, register and memory classes) must deliver every argument and result exactly",
+        ref="DESIGN.md §5 C17",
+        note=TB + "; register/memory classification, libffi and dlopen/dlsym are observed, not proved; one finding is a defect of the installed libffi 3.4.4 itself (known finding)"),
     "C01": dict(
         engine="E5 source / E4 verifier / E1 gc",
         technique="Coq theorems restated from the verifier (frame discipline on all paths), the collector model (reachable cells never reclaimed, allocation never hands out a cell in use) [+ evaluator type safety for the core when proved]; crash oracle: every accepted corpus/generated program under ASan+UBSan+asserts across heap/stack configurations",
